@@ -841,20 +841,27 @@ def st_iter_any(ex, callee, args, st):
     """`iter.any(f)`: f on each element in iteration order, short-circuiting on the first true."""
     it = ex.deref(args[0], st)
     cm = re.search(r"(\{closure@[^}]+\})", callee)
-    if not isinstance(it, SeqIter) or not cm:
+    fm = re.search(r"any::<(?:for<[^>]*> )?fn\([^)]*\) -> bool \{([\w:]+)\}>$", callee)
+    if not isinstance(it, SeqIter) or not (cm or fm):
         return _fallback(ex, callee, args, st, f"any over {it!r}")
-    f = _closure_fn(ex, cm.group(1))
+    f = _closure_fn(ex, cm.group(1)) if cm else None
     order = list(range(it.lo, it.hi))
     if it.rev:
         order.reverse()
     res = []
     work = [(0, st)]
+
+    def apply(elem, s1):
+        if f is not None:
+            return ex.run(f, [args[1], elem], {}, 1, s1)
+        # a plain function item: the named function applied to the element (summarised or executed like any other call)
+        return [Outcome_(k_, v_, i_, s_) for (k_, v_, i_, s_) in ex._call(None, fm.group(1), [elem], 1, s1)]
     while work:
         j, s1 = work.pop()
         if j >= len(order):
             res.append(("return", S("bool", "false"), None, s1))
             continue
-        for o in ex.run(f, [args[1], seq_elem(ex, it.seq, order[j])], {}, 1, s1):
+        for o in apply(seq_elem(ex, it.seq, order[j]), s1):
             if o.kind != "return":
                 res.append((o.kind, o.value, o.info, o.state))
                 continue
